@@ -22,7 +22,7 @@ FLOORS = {'quick': {'single': 1500, 'list': 300, 'ders0': 300, 'grid_point': 100
                     'corner': 300},
           'thorough': {'single': 15000, 'grid_point': 10000, 'meval': 20000}}
 MANDATORY_TAGS = ['pdim3', 'rational', 'u:knot_full', 'u:knot', 'u:start', 'u:end', 'kv:unclamped', 'kv:range',
-                  'ss:distinct', 'span:binary', 'dim4']
+                  'ss:distinct', 'ss:one-direction', 'route:list', 'span:binary', 'dim4']
 TECHNIQUE = ("runtime monitoring: exact-arithmetic post-condition on every evaluators.*.evaluate() call (M-eval hook) and on "
              "each public evaluation entry point, under a class-enumerating seeded workload")
 LEVEL_TEXT = ("Every evaluation the workload triggers is compared with the Cox-de Boor tensor-product definition computed in "
@@ -59,6 +59,8 @@ def gen(rng, tier, shard, nshards):
         kw.setdefault('span', rng.choice(['linear', 'binary', None]))
         pd = kw.pop('pdim')
         sd = G.rand_shape(rng, pd, **kw)
+        if pd > 1 and rng.random() < 0.25:
+            sd['route'] = 'list'       # built through the list-form setters degree = [...], knotvector = [...]
         yield {'kind': 'shape', 'sd': sd, 'seed': rng.randrange(1 << 30)}
 
 
@@ -85,7 +87,7 @@ def check(case, ctx):
     interior = any(len(kv) > 2 * (p + 1) or kv[0] != kv[p] for kv, p in zip(sd['kvs'], sd['degrees']))
     ctx.nontriv(interior or (sd['rational'] and len(set(sd.get('weights', [1]))) > 1))
     ctx.tag('pdim%d' % pdim, 'rational' if sd['rational'] else 'nonrational', 'dim%d' % len(sd['ctrlpts'][0]),
-            'span:%s' % sd.get('span', 'default'))
+            'span:%s' % sd.get('span', 'default'), 'route:%s' % sd.get('route', 'per-direction'))
     for c in sd['kvcls']:
         ctx.tag('kv:' + ('unclamped' if c.startswith('unclamped') else c))
     if not sd['normalize_kv'] and any(kv[0] != 0.0 or kv[-1] != 1.0 for kv in sd['kvs']):
@@ -122,11 +124,19 @@ def check(case, ctx):
         want = [rng.randint(2, mx) for _ in range(pdim)]
         if pdim > 1 and len(set(want)) < pdim:
             want = [2 + ((want[0] + k) % (mx - 1)) for k in range(pdim)]
-        how = rng.choice(['sample_size', 'per_dir', 'delta']) if pdim > 1 else rng.choice(['sample_size', 'delta'])
+        how = rng.choice(['sample_size', 'per_dir', 'delta', 'one_dir', 'one_dir']) if pdim > 1 else rng.choice(['sample_size', 'delta'])
         if how == 'sample_size':
             if pdim > 1:
                 want = [want[0]] * pdim
             o.sample_size = want[0]
+        elif how == 'one_dir':
+            # only ONE direction is changed on an object that may already hold sampled points
+            cur = [o.sample_size] if pdim == 1 else list(o.sample_size)
+            d1 = rng.randrange(pdim)
+            want = list(cur)
+            want[d1] = want[d1] + rng.choice([1, 2, 3]) if want[d1] < mx else want[d1] - 1
+            setattr(o, ('sample_size_u', 'sample_size_v', 'sample_size_w')[d1], want[d1])
+            ctx.tag('ss:one-direction')
         elif how == 'per_dir':
             for nm, w in zip(('sample_size_u', 'sample_size_v', 'sample_size_w'), want):
                 setattr(o, nm, w)
@@ -191,6 +201,7 @@ def check(case, ctx):
     total = 1
     for w in ss:
         total *= w
+    sub_pts = [list(p) for p in pts]
     if ctx.check(len(pts) == total, 'grid/size', 'evaluate(start,stop) produced %d points for sample sizes %r' % (len(pts), ss),
                  what='grid_shape'):
         per = [meval.grid_params(a, b, w) for (a, b), w in zip(sub, ss)]
@@ -205,3 +216,14 @@ def check(case, ctx):
                 continue
             ctx.near(pts[f], S.point(prm), tol, 'grid/point', 'evaluate(start,stop): point %d is not the point at the '
                      'documented parameter' % f, what='grid_point', params=[float(x) for x in prm])
+    # ---- a plain evaluate() after the partial one samples the whole domain again ---------------------------------------------------------
+    o.evaluate()
+    pts = o.evalpts
+    if ctx.check(len(pts) == total, 'grid/size', 'evaluate() after a partial-range evaluate produced %d points for sample sizes %r' % (len(pts), ss),
+                 what='grid_shape'):
+        c0 = S.point([a for a, b in doms])
+        c1 = S.point([b for a, b in doms])
+        ctx.near(pts[0], c0, tol, 'grid/stale-partial-range', 'evaluate() after evaluate(start=..., stop=...) still holds the sub-range samples '
+                 '(first point is not the domain start)', what='corner')
+        ctx.near(pts[-1], c1, tol, 'grid/stale-partial-range', 'evaluate() after evaluate(start=..., stop=...) still holds the sub-range samples '
+                 '(last point is not the domain end)', what='corner')
